@@ -4,6 +4,9 @@
 //! inputs and reports progress; if no input completes within 10 seconds the input in progress is reported as
 //! non-terminating. Panics are caught per input.
 //!
+//! Also the error responses of the client-server API (`Error::from_http_response`: 6 bodies x 4 statuses x 7 Retry-After
+//! values, bodies truncated and mutated the same way).
+//!
 //! Space: (14 types x their seed texts + every generated event of the C18 family through the typed event enums) x (every prefix cut on a char boundary + each of 9 replacement tokens at every
 //! position of a `"`-delimited string or number token).
 use std::{sync::mpsc, time::Duration};
@@ -108,6 +111,34 @@ pub fn run(_tier: &str) -> Report {
         let vs = if thorough || i % 4 == 0 { variants(&text) } else { (0..=text.len()).filter(|j| text.is_char_boundary(*j)).map(|j| text[..j].to_owned()).collect() };
         for v in vs {
             all.push((name, v, f));
+        }
+    }
+    // error responses of the client-server API: status x Retry-After header x body (prefixes and token mutations)
+    let err_bodies = [
+        r#"{"errcode":"M_LIMIT_EXCEEDED","error":"slow down","retry_after_ms":2000}"#,
+        r#"{"errcode":"M_UNKNOWN_TOKEN","error":"x","soft_logout":true}"#,
+        r#"{"errcode":"M_INCOMPATIBLE_ROOM_VERSION","error":"x","room_version":"7"}"#,
+        r#"{"errcode":"M_RESOURCE_LIMIT_EXCEEDED","error":"x","admin_contact":"mailto:a@b"}"#,
+        r#"{"errcode":"M_WRONG_ROOM_KEYS_VERSION","error":"x","current_version":"42"}"#,
+        r#"{"errcode":"ORG.EXAMPLE.CUSTOM","error":"x","extra":{"a":[1,2]}}"#,
+    ];
+    for b in err_bodies {
+        for v in variants(b) {
+            all.push(("ruma_client_api::Error::from_http_response", v, |s| {
+                let mut any = false;
+                for status in [400u16, 401, 429, 500] {
+                    for ra in [None, Some("2"), Some("-1"), Some("99999999999999999999999"), Some("Wed, 21 Oct 2015 07:28:00 GMT"), Some("Wed, 21 Oct 99999 07:28:00 GMT"), Some("x")] {
+                        let mut rb = http::Response::builder().status(status);
+                        if let Some(ra) = ra {
+                            rb = rb.header(http::header::RETRY_AFTER, ra);
+                        }
+                        let resp = rb.body(s.as_bytes().to_vec()).unwrap();
+                        let e = <ruma_client_api::Error as ruma_common::api::EndpointError>::from_http_response(resp);
+                        any |= matches!(e.body, ruma_client_api::error::ErrorBody::Standard { .. });
+                    }
+                }
+                any
+            }));
         }
     }
     let total = all.len() as u64;
